@@ -11,7 +11,7 @@
 import VotelibProofs.Lemmas.PermBase
 import VotelibProofs.Lemmas.PermQuota
 import VotelibProofs.Lemmas.STVTotal
-namespace VL.Perm
+namespace VL.Perm.Stv
 open VL VL.STV VL.C10
 
 /-! ### generic dictionaries -/
@@ -397,4 +397,4 @@ theorem foldl_perm_rel {S X : Type} (E : S → S → Prop) (hsymm : ∀ s t, E s
     have hp2 := (h₁.pairwise_iff (fun {a b} => hP a b)).mp hp
     exact htrans _ _ _ (ih₁ hp s s' hs) (ih₂ hp2 s' s' hss)
 
-end VL.Perm
+end VL.Perm.Stv
